@@ -15,6 +15,7 @@ env.setup_env()
 env.quiet_library()
 
 ZONE = "America/Chicago"
+KEPT = []  # every model fitted in this process, with what it serialised to / predicted right after its fit
 
 
 def _sha(s):
@@ -78,7 +79,27 @@ def do_fit(family, which, reuse=None):
         raise ValueError(family)
     js = m.to_json()
     p = m.predict(rep)
-    return {"doc": _sha(js), "pred": F.fp(p["predicted"].to_numpy(float)), "len": len(js)}, m, rep
+    res = {"doc": _sha(js), "pred": F.fp(p["predicted"].to_numpy(float)), "len": len(js)}
+    if reuse is None:
+        KEPT.append((f"{family}:{which}", m, rep, dict(res)))
+    else:  # the object was fitted again: what is kept for it is its latest fit
+        KEPT[:] = [k for k in KEPT if k[1] is not m] + [(f"{family}:{which}", m, rep, dict(res))]
+    return res, m, rep
+
+
+def late_reads():
+    """Every model fitted earlier in this process is serialised and used once more at the end of the history."""
+    from . import fingerprint as F
+
+    out = []
+    for name, m, rep, then in KEPT:
+        try:
+            now = {"doc": _sha(m.to_json()), "pred": F.fp(m.predict(rep)["predicted"].to_numpy(float))}
+        except Exception as exc:
+            now = {"raised": f"{type(exc).__name__}: {str(exc)[:200]}"}
+        if now.get("doc") != then["doc"] or now.get("pred") != then["pred"]:
+            out.append({"fit": name, "then": [then["doc"], then["pred"]], "now": now})
+    return out
 
 
 def run_op(op):
@@ -197,6 +218,8 @@ def main():
             prev_items = g[2]
             out["ops"].append(res)
             out["states"].append([g[0], g[1]])
+        out["late"] = late_reads()
+        out["kept"] = len(KEPT)
     else:
         # threads: {"programs": [[ops of thread 0], [ops of thread 1], ...], "schedule": [thread ids in execution order] | "free"}
         progs = threads["programs"]
@@ -232,6 +255,8 @@ def main():
                 done.acquire()
             [t.join() for t in ths]
         out["thread_results"] = results
+        out["late"] = late_reads()
+        out["kept"] = len(KEPT)
         g = global_fp()
         out["states"].append([g[0], g[1]])
     print("C03RESULT " + json.dumps(out))
